@@ -1,5 +1,5 @@
 """Static text for MANIFEST.json (see gen_manifest.py)."""
-CLAIMED = ["C01", "C02", "C03", "C04", "C05", "C06", "C07", "C08", "C10", "C11", "C12", "C13", "C14", "C15", "C16", "C18", "C19"]
+CLAIMED = ["C01", "C02", "C03", "C04", "C05", "C06", "C07", "C08", "C09", "C10", "C11", "C12", "C13", "C14", "C15", "C16", "C18", "C19"]
 
 NOTES = ("All checks are seeded searches (VERIF_SEED) over generated worlds executed end-to-end by the "
          "unmodified simulator under monitors; see DESIGN.md. Exit 0 = held (KNOWN-FINDING lines allowed), "
@@ -108,4 +108,8 @@ TEXT = {
               "path enumeration). Only the closed-loop clause depends on the run and is checked at every event "
               "boundary of simulated runs under completing and cancelling policies.",
               "deterministic simulation for the closed-loop clause (in-flight bound at every event boundary under cancelling policies); spec-vs-loaded-object comparison at world construction for the rest"),
+    "C09": _t("Seeded generation of workloads using randomness; the untouched `python main.py --random_seed=N` is "
+              "run in three fresh interpreters (baseline / other PYTHONHASHSEED / other PYTHONHASHSEED + skewed wall "
+              "clock) and the CSV traces must be identical after masking the measured scheduler durations.",
+              "deterministic simulation across processes: hash-seed and wall-clock perturbation (F8) of real CLI runs, row-by-row trace diff"),
 }
